@@ -20,7 +20,10 @@ const (
 
 var kindNames = []string{"P1", "P2", "ext-P2", "ext-P1"}
 
-var textClasses = []string{"BL", "", "méasure-éé世", "q\"uo\\te\n\t\x01<>&"}
+var textClasses = []string{"BL", "", "méasure-éé世", "q\"uo\\te\n\t\x01<>&", "1.0\x00", "a\ufffdb"}
+
+// any text is a verification-service indicator
+var vsiClasses = []string{"https://psa-verifier.org", "vérifier-世", "q\"uo\\te\n\x01", "psa-profile", "eat-profile", "a\ufffdb", "v\x00", "100%", "psa-software-components"}
 
 // genValid draws a valid claims-set. utf8bad: additionally allow an invalid-UTF-8 VSI / component text.
 func genValid(c *choice.Ctx, kind int, allowBadUTF8 bool) *refmodel.Claims {
@@ -99,19 +102,14 @@ func genValid(c *choice.Ctx, kind int, allowBadUTF8 bool) *refmodel.Claims {
 	}
 	a.Nonces = [][]byte{pat([]int{32, 48, 64}[c.Choose("nonce", 3)], 0x50)}
 	a.InstID = bp(instID(33, 1))
-	nv := 4
+	nv := 1 + len(vsiClasses)
 	if allowBadUTF8 {
-		nv = 5
+		nv++
 	}
-	switch c.Choose("vsi", nv) {
-	case 1:
-		a.VSI = sp("https://psa-verifier.org")
-	case 2:
-		a.VSI = sp("vérifier-世")
-	case 3:
-		a.VSI = sp("q\"uo\\te\n\x01")
-	case 4:
+	if v := c.Choose("vsi", nv); v > len(vsiClasses) {
 		a.VSI = sp("bad\xffutf8")
+	} else if v > 0 {
+		a.VSI = sp(vsiClasses[v-1])
 	}
 	if !a.Valid() {
 		panic(choice.HarnessError{Msg: "genValid produced an invalid claims-set: " + a.Check().String()})
